@@ -117,8 +117,20 @@ class _Connector:
                     self.last_error or IOError("connection failed")
                 )
             return
-        stream, future = self.connect(af, addr)
-        self.streams.add(stream)
+        try:
+            stream, future = self.connect(af, addr)
+        except Exception as e:
+            # The connect callable failed before it could return a stream
+            # (e.g. bind() to the requested source address is impossible
+            # for this address family). Treat it like any other failed
+            # attempt so that the accounting in ``remaining`` stays correct
+            # and the other addresses are still tried; if this call comes
+            # from a timer or a completed attempt there is no caller to
+            # raise to, and the future would otherwise never resolve.
+            future = Future()
+            future.set_exception(e)
+        else:
+            self.streams.add(stream)
         future_add_done_callback(
             future, functools.partial(self.on_connect_done, addrs, af, addr)
         )
